@@ -20,7 +20,7 @@ DEDICATED = [
     ("debug_default_helper_bounds", "#[derive_ex::derive_ex(Debug, Default, Clone(bound(T: Clone)))]\n#[debug(bound(T: core::fmt::Debug))] #[default(_, bound(T: Default))]\npub struct X<T> { pub t: T }"),
     ("eq_self_where", "#[derive_ex::derive_ex(PartialEq, Eq)]\npub struct X<T>(pub T) where Self: Sized;"),
     ("eq_self_where_enum", "#[derive_ex::derive_ex(PartialEq, Eq, PartialOrd, Ord, Hash, Clone, Debug)]\npub enum X<T> where Self: Sized { A(T), B }"),
-    ("param_named_h", "#[derive_ex::derive_ex(Hash, PartialEq, Eq)]\npub struct X<H>(pub H, #[hash(by = crate::support::gby_hash)] pub u8);"),
+    ("param_named_h", "#[derive_ex::derive_ex(Hash)]\npub struct X<H>(pub H, #[hash(by = crate::support::gby_hash)] pub u8);"),
     ("lifetime_named_a_ops", "#[derive_ex::derive_ex(Add, SubAssign, Neg)]\npub struct X<'a>(pub crate::support::Lt<'a>);"),
     ("empty_enum_all", "#[derive_ex::derive_ex(Clone, Copy, Debug, PartialEq, Eq, PartialOrd, Ord, Hash)]\npub enum X {}"),
     ("single_variant_all", "#[derive_ex::derive_ex(Clone, Debug, Default, PartialEq, Eq, PartialOrd, Ord, Hash)]\npub enum X { A { a: u8 } }"),
@@ -40,7 +40,10 @@ DEDICATED = [
     ("non_snake_field_names_enum", "#[derive_ex::derive_ex(Clone, Debug, Default, PartialEq, Eq, PartialOrd, Ord, Hash)]\n#[allow(non_snake_case)]\npub enum X { #[default] A { fooBar: u8, Xy: u8 }, B(u8) }"),
     ("deprecated_field", "#[derive_ex::derive_ex(Clone, Debug, Default, PartialEq, Eq, PartialOrd, Ord, Hash)]\npub struct X { #[deprecated] pub old: u8, pub b: u8 }"),
     ("deprecated_variant", "#[derive_ex::derive_ex(Clone, Debug, PartialEq, Eq, PartialOrd, Ord, Hash)]\npub enum X { #[deprecated] Old(u8), New { #[deprecated] a: u8 } }"),
-    ("forbid_naming_lints", "#![forbid(non_snake_case, non_camel_case_types, non_upper_case_globals)]\n#[derive_ex::derive_ex(Clone, Debug, Default, PartialEq, Eq, PartialOrd, Ord, Hash)]\npub enum X<T> { #[default] A { a: u8, #[ord(by = crate::support::gby_ord)] #[hash(key = crate::support::gk(&$))] bb: Option<T> }, B(u8, #[eq(key = crate::support::gk(&$))] u8) }"),
+    ("item_level_lint_attrs", "#[deprecated] pub struct Old(pub u8);\n#[allow(deprecated)] impl Clone for Old { fn clone(&self) -> Self { Old(self.0) } }\n#[allow(deprecated)]\n#[derive_ex::derive_ex(Clone)]\npub struct A(pub Old);\n#[derive_ex::derive_ex(Clone)]\npub struct B(#[allow(deprecated)] pub Old);\n#[allow(non_camel_case_types)]\n#[derive_ex::derive_ex(Clone, Debug, PartialEq)]\npub struct P<t>(pub t);\n#[allow(non_upper_case_globals)]\n#[derive(derive_ex::Ex)]\n#[derive_ex(Clone, Default, PartialEq, Eq, Hash)]\npub enum E<const n: usize> { #[default] A([u8; n]), B }"),
+    ("single_use_lifetimes", "#![deny(single_use_lifetimes)]\n#[derive_ex::derive_ex(Clone, Debug, PartialEq, Eq, PartialOrd, Ord, Hash)]\npub struct X<'a>(pub &'a str);\n#[derive_ex::derive_ex(PartialEq, Eq)]\npub enum Y<'a, 'b: 'a> { A(&'a u8), B { b: &'b str } }"),
+    ("impl_item_paren_and_macro_ty", "macro_rules! ops { ($l:ty, $r:ty) => { #[derive_ex::derive_ex(Add)] impl core::ops::Add<$r> for $l { type Output = Cq; fn add(self, rhs: $r) -> Cq { Cq(self.0 ^ rhs.0) } } } }\nops!(&Cq, &Cq);\n#[derive(Clone)] pub struct Cq(pub u8);\n#[derive_ex::derive_ex(Sub)]\nimpl core::ops::Sub<(&Cr)> for (&Cr) { type Output = Cr; fn sub(self, rhs: &Cr) -> Cr { Cr(self.0 ^ rhs.0) } }\n#[derive(Clone)] pub struct Cr(pub u8);\npub fn uses(a: Cq, b: Cr) -> (Cq, Cr) { (a.clone() + a, b.clone() - b) }"),
+    ("forbid_naming_lints", "#![forbid(non_snake_case, non_camel_case_types, non_upper_case_globals)]\n#[derive_ex::derive_ex(Clone, Debug, Default, PartialEq, Eq, PartialOrd, Ord, Hash)]\npub enum X<T> { #[default] A { a: u8, #[ord(by = crate::support::gby_ord)] #[hash(key = crate::support::gk(&$))] bb: Option<T> }, B(u8, #[ord(key = crate::support::gk(&$))] u8) }"),
     ("forbid_deprecated", "#![forbid(deprecated)]\n#[derive_ex::derive_ex(Clone, Debug, Default, PartialEq, Eq, PartialOrd, Ord, Hash, Add, Neg)]\npub struct X { pub a: i8, pub b: i8 }"),
     # recorded findings (known_findings.jsonl), re-observed on every run
     ("kf_repr_packed", "#[derive_ex::derive_ex(Clone, PartialEq, Debug)]\n#[derive(Copy)]\n#[repr(packed)]\npub struct X { pub a: u8, pub b: u32 }"),
@@ -60,6 +63,9 @@ def run(ctx):
     ex = Expander()
     kept, own_error = [], 0
     for p in progs:
+        if p.name.startswith("p_d_"):
+            kept.append(p)          # dedicated crossings are well-formed uses by construction: each must compile
+            continue
         body = p.meta.get("plain") or p.text.split("\n\n")[0]
         if "#[derive" in body and not body.startswith("#!["):
             body = body[body.index("#[derive"):]        # helper items / macro definitions written in front of the item
